@@ -332,6 +332,26 @@ def seq_stats(text):
     return seq_stats3(text)[:2]
 
 
+def one_sequence(t):
+    """one maximal gap-free sequence of pattern matches of the (already cleaned) text t, built harness-side from the
+    library's matches (does not need the library's own sequence enumeration)"""
+    m = core.load_repo()
+    ms = m._match_regex(t, m.global_regex)
+    if not ms:
+        return ()
+
+    def adj(a, b):
+        gap = t[a.mend:b.mstart]
+        return b.mstart >= a.mend and (gap == "" or gap.isspace())
+
+    seq = [ms[0]]
+    while True:
+        nxt = [x for x in ms if adj(seq[-1], x)]
+        if not nxt:
+            return tuple(seq)
+        seq.append(min(nxt, key=lambda x: (x.mstart, -x.mend)))
+
+
 def bounded_options(text, opts, max_seq=600, max_seq_depth0=40, max_len_depth0=6):
     """Apply DESIGN 3.8: returns (opts', cls) or (None, 'skipped-too-large').  Unlimited depth
     is exponential in the length of the candidate sequences, so depth 0 is only used when the
